@@ -164,3 +164,32 @@ pub fn arg_val(args: &[String], key: &str) -> Option<String> {
 pub fn arg_usize(args: &[String], key: &str, default: usize) -> usize {
     arg_val(args, key).map(|v| v.parse().unwrap()).unwrap_or(default)
 }
+
+/// Profile overrides given on the command line (so that one generator serves several properties).
+#[derive(Default, Debug)]
+pub struct Overrides {
+    pub sinks: Option<Vec<String>>, // rotate over these sink names
+    pub repl: Option<bool>,
+    pub cap: Option<String>, // "min" | "min1" | "query"
+    pub twins: bool,
+    pub latin1: bool,
+    pub modes: Option<Vec<String>>,
+    pub thin: usize, // keep one history in `thin` (0/1 = all)
+}
+pub static OVERRIDES: std::sync::OnceLock<Overrides> = std::sync::OnceLock::new();
+pub static ROT: std::sync::atomic::AtomicUsize = std::sync::atomic::AtomicUsize::new(0);
+pub fn ov() -> &'static Overrides {
+    OVERRIDES.get_or_init(Overrides::default)
+}
+pub fn rot() -> usize {
+    ROT.fetch_add(1, std::sync::atomic::Ordering::Relaxed)
+}
+pub static THIN: std::sync::atomic::AtomicUsize = std::sync::atomic::AtomicUsize::new(0);
+/// true if this history is to be skipped by the --thin knob
+pub fn thinned() -> bool {
+    let t = ov().thin;
+    if t <= 1 {
+        return false;
+    }
+    THIN.fetch_add(1, std::sync::atomic::Ordering::Relaxed) % t != 0
+}
